@@ -505,8 +505,21 @@ func ruleNumErrValue(c *Ctx) []Obligation {
 			}
 			errNil := func(b *ssa.BasicBlock) bool {
 				for _, g := range guardsAtDeep(b) {
-					if x, isEq, isT := nilTest(g.Cond); isT && x == ssa.Value(errv) && isEq == g.Branch {
+					x, isEq, isT := nilTest(g.Cond)
+					if !isT || isEq != g.Branch {
+						continue
+					}
+					if x == ssa.Value(errv) {
 						return true
+					}
+					// the error joined with that of the other converter (`if decimal { n, err = A() } else { n, err
+					// = B() }`): the joined error is nil only if the one that was taken is
+					if phi, isP := x.(*ssa.Phi); isP && isErrorType(phi.Type()) {
+						for _, e := range phi.Edges {
+							if e == ssa.Value(errv) {
+								return true
+							}
+						}
 					}
 				}
 				return false
